@@ -30,6 +30,23 @@ pub struct FrCase {
     /// cancel() / finishes its root and then calls flush() itself
     #[serde(default)]
     pub full: Option<FullCase>,
+    /// instead of the overlapping flushes: brand-new threads released at the same instant, each
+    /// finishing spans with its first tracing calls; after all of them returned, one flush()
+    #[serde(default)]
+    pub burst: Option<BurstCase>,
+}
+
+#[derive(Clone, Debug, Serialize, Deserialize, PartialEq)]
+pub struct BurstCase {
+    pub threads: u8,
+    pub rounds: u8,
+    /// what each thread finishes: 0 a root, 1 a child of a live root handed to it, 2 a local scope
+    pub kind: u8,
+    /// a collector cycle (another thread's flush()) runs while the threads start
+    pub cycle_meanwhile: bool,
+    /// the threads stay alive until the flush() has returned (otherwise they exit at once)
+    #[serde(default)]
+    pub stay: bool,
 }
 
 #[derive(Clone, Debug, Serialize, Deserialize, PartialEq)]
@@ -49,8 +66,15 @@ pub fn strategy() -> BoxedStrategy<FrCase> {
         3 => Just(None),
         1 => (0u16..3000, any::<bool>(), proptest::bool::weighted(0.8), 0u8..3).prop_map(|(over, cancel, flush_by_self, more_parked)| Some(FullCase { over, cancel, flush_by_self, more_parked })),
     ];
-    (proptest::collection::vec(0u8..4, 1..5), 0u8..3, prop_oneof![1 => Just(0u16), 3 => 50u16..3000], Just(false), prop_oneof![1 => Just(0u8), 2 => 1u8..4], full)
-        .prop_map(|(b_spans, extra, delay_us, cancelable, pre_roots, full)| FrCase { b_spans, extra, delay_us, cancelable, pre_roots, full })
+    let burst = prop_oneof![
+        4 => Just(None),
+        1 => (prop_oneof![1 => 2u8..8, 2 => 8u8..33], 1u8..9, 0u8..3, proptest::bool::weighted(0.3), any::<bool>()).prop_map(|(threads, rounds, kind, cycle_meanwhile, stay)| Some(BurstCase { threads, rounds, kind, cycle_meanwhile, stay })),
+    ];
+    (proptest::collection::vec(0u8..4, 1..5), 0u8..3, prop_oneof![1 => Just(0u16), 3 => 50u16..3000], Just(false), prop_oneof![1 => Just(0u8), 2 => 1u8..4], full, burst)
+        .prop_map(|(b_spans, extra, delay_us, cancelable, pre_roots, full, burst)| {
+            let full = if burst.is_some() { None } else { full };
+            FrCase { b_spans, extra, delay_us, cancelable, pre_roots, full, burst }
+        })
         .boxed()
 }
 
@@ -169,8 +193,110 @@ fn run_full(f: &FullCase, tag: &str) -> Vec<String> {
     out
 }
 
+/// Brand-new threads start tracing at the same instant (their first command registers their
+/// queue); each finishes its spans and returns. A flush() called after all of them were joined
+/// reports everything they finished (in the holding configuration: once the roots are finished).
+fn run_burst(b: &BurstCase, tag: &str) -> Vec<String> {
+    let cancelable = CANCELABLE.load(Ordering::SeqCst);
+    let mut out = vec![];
+    for round in 0..b.rounds {
+        fastrace::flush();
+        SINK.lock().unwrap().clear();
+        let n = b.threads as usize;
+        // released by a flag the threads spin on: they leave within nanoseconds of each other
+        let ready = Arc::new(AtomicU64::new(0));
+        let go = Arc::new(AtomicBool::new(false));
+        let release = Arc::new(AtomicBool::new(false));
+        let live = Span::root(format!("burst-live-{}-{}", tag, round), SpanContext::new(TraceId(0xB000), SpanId(0)));
+        let mut hs = vec![];
+        let mut want = vec![];
+        for t in 0..n {
+            let name = format!("burst-{}-{}-{}", tag, round, t);
+            let parent = if b.kind == 0 { None } else { Some(Span::enter_with_parent(format!("burst-handoff-{}-{}-{}", tag, round, t), &live)) };
+            if b.kind == 0 || !cancelable {
+                want.push(name.clone());
+            }
+            let (ready2, go2, release2, stay) = (ready.clone(), go.clone(), release.clone(), b.stay);
+            let kind = b.kind;
+            hs.push(std::thread::spawn(move || {
+                ready2.fetch_add(1, Ordering::SeqCst);
+                while !go2.load(Ordering::Acquire) {
+                    std::hint::spin_loop();
+                }
+                match (kind, &parent) {
+                    (1, Some(p)) => drop(Span::enter_with_parent(name, p)),
+                    (2, Some(p)) => {
+                        let _g = p.set_local_parent();
+                        let _l = LocalSpan::enter_with_local_parent(name);
+                    }
+                    _ => drop(Span::root(name, SpanContext::new(TraceId(0xB100 + t as u128), SpanId(0)))),
+                }
+                ready2.fetch_add(1, Ordering::SeqCst);
+                while stay && !release2.load(Ordering::Acquire) {
+                    std::thread::sleep(Duration::from_micros(200));
+                }
+                parent
+            }));
+        }
+        while ready.load(Ordering::SeqCst) < n as u64 {
+            std::hint::spin_loop();
+        }
+        go.store(true, Ordering::Release);
+        if b.cycle_meanwhile {
+            fastrace::flush();
+        }
+        // every thread has finished its spans
+        while ready.load(Ordering::SeqCst) < 2 * n as u64 {
+            std::thread::yield_now();
+        }
+        let parents: Vec<Option<Span>> = if b.stay {
+            fastrace::flush();
+            release.store(true, Ordering::Release);
+            hs.into_iter().map(|h| h.join().unwrap_or(None)).collect()
+        } else {
+            let p = hs.into_iter().map(|h| h.join().unwrap_or(None)).collect();
+            fastrace::flush();
+            p
+        };
+        let sink = SINK.lock().unwrap().clone();
+        let missing: Vec<&String> = want.iter().filter(|w| !sink.contains(w)).collect();
+        if !missing.is_empty() {
+            out.push(format!(
+                "span {:?} (and {} more of {}) finished by a thread that started together with {} others was not reported when a flush() called after all of them had returned came back",
+                missing[0],
+                missing.len() - 1,
+                want.len(),
+                n - 1
+            ));
+        }
+        drop(parents);
+        drop(live);
+        fastrace::flush();
+        if out.is_empty() {
+            let sink = SINK.lock().unwrap().clone();
+            for t in 0..n {
+                let name = format!("burst-{}-{}-{}", tag, round, t);
+                let k = sink.iter().filter(|m| **m == name).count();
+                if k != 1 {
+                    out.push(format!("INCOMPLETE: span {:?} of a thread that started together with {} others was reported {} times after every root had finished and a cycle had run", name, n - 1, k));
+                    break;
+                }
+            }
+        }
+        if !out.is_empty() {
+            break;
+        }
+    }
+    out
+}
+
 /// returns violations; Err = harness could not set up the overlap (inconclusive case)
 pub fn run(c: &FrCase) -> Result<Vec<String>, String> {
+    if let Some(b) = &c.burst {
+        let case = CASE.fetch_add(1, Ordering::SeqCst);
+        let tag = format!("{}x{}", std::process::id(), case);
+        return Ok(run_burst(b, &tag));
+    }
     if let Some(f) = &c.full {
         let case = CASE.fetch_add(1, Ordering::SeqCst);
         let tag = format!("{}x{}", std::process::id(), case);
